@@ -505,7 +505,7 @@ def rule_Y(prog, chk):
                 for a in call_args(x)[2:]:
                     for z in walk(a) if a is not None else []:
                         if z["k"] == "DeclRefExpr" and z.get("dk") == "var":
-                            names[z["n"]] = z["d"]
+                            names.setdefault(z["n"], (z["d"], x.get("l", 0)))
         if not names:
             continue
         for cl in r.calls():
@@ -514,7 +514,9 @@ def rule_Y(prog, chk):
                 continue
             for k, a in enumerate(call_args(cl)):
                 pn = cal[0].params[k]["n"]
-                if pn not in names:
+                # only a call that FOLLOWS the read can hand the value over (a context built before the records are read takes
+                # its defaults legitimately: Model::_deserialize sets the means later, one by one)
+                if pn not in names or cl.get("l", 0) <= names[pn][1]:
                     continue
                 n += 1
                 ok = not (a is not None and a["k"] == "DefaultArg")
